@@ -8,7 +8,8 @@ Go code transcribed (/repo):
 * cue/literal/num.go — the `p.buf` / `p.base` / `p.mul` side effects of `ParseNum`, `next`,
   `scanMantissa`, `scanNumber` (what ends up in the buffer for an accepted spelling: the digits
   without `_`, a leading `0` before a leading `.`, `e` + sign + digits), `NumInfo.decimal`
-  (`Coeff.SetString(buf, base)` for bases 2/8/16; `UnmarshalText(buf)` whose ERROR IS IGNORED;
+  (`Coeff.SetString(buf, base)` for bases 2/8/16; `UnmarshalText(buf)` whose error is RETURNED
+  since /repo commit 1674508 — before it was ignored;
   `baseContext.Mul` by `mulToRat[p.mul]` at precision 34, `RoundToIntegralExact`, Inexact ↦
   "number cannot be represented as int"), `mulToRat` (1000^i, 1024^i);
 * internal/core/compile/compile.go `compiler.parse` (INT/FLOAT cell: kind from `IsInt`, value
@@ -19,10 +20,12 @@ Go code transcribed (/repo):
 
 apd is not transcribed; modelled by contract:
 * `Decimal.setString` on a well-formed buffer: coefficient = the digits, exponent = written
-  exponent − number of fraction digits, EXCEPT (apd `setExponent` returns early, leaving the
-  exponent 0) when the written exponent, or the adjusted exponent, is outside ±100000, and
-  except that a written exponent outside int32 leaves the decimal NaN (`strconv.ParseInt`
-  error).  Because `NumInfo.decimal` ignores the error these are silent: see `litExp`.
+  exponent − number of fraction digits; it FAILS (apd `setExponent` reports Overflow/Underflow,
+  trapped by `BaseContext`) when the written exponent, the fraction length or the adjusted
+  exponent is outside ±100000, when the written exponent does not fit int32
+  (`strconv.ParseInt`), and when the buffer has no mantissa digits ("parse mantissa": only
+  possible on the signed API route, see `parseNumValue`; for "0K" `scanNumber` supplies the
+  skipped "0" itself since /repo 726bce5).  See `litExp`.
 * `Decimal.Append(_, 'G')` (`fmtG`): `to-scientific-string` of the General Decimal Arithmetic
   spec with apd's zero padding rule.
 -/
@@ -89,21 +92,21 @@ def readParts (s : Str) : Parts :=
 
 inductive LitRes where
   | ok (n : Num)
-  | nan            -- the decimal is left NaN (written exponent does not fit int32)
   | err            -- rejected
 deriving Repr, Inhabited, DecidableEq
 
-/-- what `setString` + the ignored `setExponent` condition leave in `d.Exponent`:
-`none` = NaN -/
+/-- the exponent `setString` computes; `none` = `UnmarshalText` returns an error (written
+exponent outside int32, or written exponent / fraction length / adjusted exponent outside
+apd's window ±100000), which `NumInfo.decimal` reports as "invalid number" -/
 def litExp (coeff : Nat) (hasExp : Bool) (e : Int) (fracLen : Nat) : Option Int :=
   if hasExp && (decide (e < -2147483648) || decide (2147483647 < e)) then none
   else
     let e := if hasExp then e else 0
     let f : Int := -(fracLen : Int)
-    if decide (maxExp < e) || decide (e < -maxExp) || decide (f < -maxExp) then some 0
+    if decide (maxExp < e) || decide (e < -maxExp) || decide (f < -maxExp) then none
     else
       let adj := e + f + (Dec.numDigits coeff : Int) - 1
-      if decide (maxExp < adj) || decide (adj < -maxExp) then some 0 else some (e + f)
+      if decide (maxExp < adj) || decide (adj < -maxExp) then none else some (e + f)
 
 /-- `RoundToIntegralExact` to an integer: `none` = Inexact -/
 def toIntegralExact (d : Dec) : Option Int :=
@@ -117,7 +120,7 @@ def decValue (k : Kind) (p : Parts) : LitRes :=
   let coeff := horner 10 (p.intDs ++ p.fracDs)
   let e : Int := if p.expNeg then -(horner 10 p.expDs : Int) else (horner 10 p.expDs : Int)
   match litExp coeff p.hasExp e p.fracDs.length with
-  | none => .nan
+  | none => .err
   | some x =>
     let v : Dec := ⟨coeff, x⟩
     match p.mul with
@@ -154,16 +157,16 @@ def parseNumValue (s : Str) : LitRes :=
     | 45 :: t =>
       -- With a `-` in the buffer the `len(p.buf) == 0` tests of `next`/`scanNumber`/`ParseNum`
       -- never fire, so the leading "0" of a literal (skipped by `scanNumber`) is never supplied:
-      -- "-0", "-0K", "-0e5", "-0.", "-0.P" leave "-", "-", "-e5", "-.", "-." in the buffer.
-      -- `UnmarshalText` fails on a mantissa without digits, the error is ignored and the decimal
-      -- stays NaN.  (Not reachable from CUE source, where the sign is a unary operator.)
-      let bareZeroMul := match t with
+      -- "-0", "-0e5", "-0.", "-0.P" leave "-", "-e5", "-.", "-." in the buffer and
+      -- `UnmarshalText` fails on a mantissa without digits ("invalid number").
+      -- (Not reachable from CUE source, where the sign is a unary operator.)
+      let noMantissa := match t with
         | [48] => true
         | 48 :: c :: _ =>
           if c == 120 || c == 88 || c == 98 || c == 111 then false
           else (((readParts t).intDs.drop 1) ++ (readParts t).fracDs).isEmpty
         | _ => false
-      if bareZeroMul then .nan else
+      if noMantissa then .err else
       match readValue k t with
       | .ok n => .ok (negNum n)
       | r => r
